@@ -83,6 +83,7 @@ var propClasses = map[string][]string{
 	"C04": {"filter", "panic"},
 	"C06": {"replica", "panic"},
 	"C07": {"restore", "panic"},
+	"C08": {"restore", "panic"},
 	"C09": {"values", "panic"},
 	"C11": {"offsets", "count", "fresh", "panic"},
 	"C12": {"keys", "panic"},
